@@ -1,0 +1,9 @@
+//go:build !verif
+// +build !verif
+
+package backend
+
+import "time"
+
+// nowFn is the clock used by health checks, fuse and recovery decisions.
+func nowFn() time.Time { return time.Now() }
